@@ -474,8 +474,9 @@ func c07Oracle(res *Result, w *C07W, h *H1, plugs []*Plug, outs []*c07Out, fired
 	entries := h.entriesCopy()
 	// status[p] per request
 	diedAt := make([]int, n)
-	dead := make([]bool, n)   // excluded from now on
-	unsure := make([]bool, n) // garbage was injected: the connection may or may not survive
+	diedOf := make([]string, n) // fault kind that dropped the plugin
+	dead := make([]bool, n)     // excluded from now on
+	unsure := make([]bool, n)   // garbage was injected: the connection may or may not survive
 	nontrivial := false
 	for i, rq := range w.Reqs {
 		o := outs[i]
@@ -485,8 +486,15 @@ func c07Oracle(res *Result, w *C07W, h *H1, plugs []*Plug, outs []*c07Out, fired
 		for k := range status {
 			if dead[k] {
 				status[k], noEntry[k] = stExcluded, true
-				if rq.Rush && diedAt[k] == i-1 {
-					// its loss may not have been noticed yet: either outcome, and it may still be entered
+				rushed := rq.Rush
+				for j := diedAt[k] + 1; j < i && rushed; j++ {
+					// a plugin stopping itself disconnects when its Stop gets to run: with no settle
+					// since, that may still lie ahead. A killed connection is dead at once.
+					rushed = w.Reqs[j].Rush && diedOf[k] == "stop"
+				}
+				if rushed {
+					// its loss may not have happened / been noticed yet: either outcome, and it may
+					// still be entered
 					status[k], noEntry[k] = stMaybe, false
 				}
 			} else if unsure[k] {
@@ -713,6 +721,7 @@ func c07Oracle(res *Result, w *C07W, h *H1, plugs []*Plug, outs []*c07Out, fired
 				if didFire {
 					dead[f.Victim] = true
 					diedAt[f.Victim] = i
+					diedOf[f.Victim] = f.Kind
 				}
 			}
 		}
